@@ -15,7 +15,11 @@ def wf(x, np):
     s, nw, nf = bool(x.signed), int(x.n_word), int(x.n_frac)
     lo, hi = S.fmt_bounds(s, nw)
     v = np.asarray(x.val)
-    if v.dtype == complex: return None
+    if np.iscomplexobj(v):
+        # a complex object: both parts of every code inside the range (the limits / dtype string of complex objects are C12's business)
+        parts = [t for z in v.reshape(-1).tolist() for t in (z.real, z.imag)]
+        if any(not (lo <= p <= hi) or p != int(p) for p in parts): return 'a part of a stored complex code is outside the range of the object\'s own format (or not an integer): %r not in [%d, %d]' % ([p for p in parts if not (lo <= p <= hi) or p != int(p)][:3], lo, hi)
+        return None
     codes = [int(t) for t in v.reshape(-1).tolist()]
     if any(not (lo <= c <= hi) for c in codes): return 'a stored code is outside the range of the object\'s own format: %r not in [%d, %d]' % ([c for c in codes if not (lo <= c <= hi)][:3], lo, hi)
     if x.n_int != nw - nf - (1 if s else 0): return 'n_int is not n_word - n_frac - sign bit (%r)' % (x.n_int,)
@@ -32,8 +36,9 @@ def wf(x, np):
     if exact and (up, low, pr) != exp: return 'upper/lower/precision are not max code*2^-n_frac, min code*2^-n_frac, 2^-n_frac: %r' % ((str(up), str(low), str(pr)),)
     return None
 
-OPS = ['ctor', 'ctor_raw', 'ctor_dtype', 'ctor_like', 'ctor_like_scaled', 'best_sizes', 'set', 'call', 'setitem', 'resize', 'like', 'add', 'sub', 'mul', 'const', 'div', 'floordiv', 'mod', 'neg', 'abs', 'lshift', 'rshift', 'invert', 'and', 'getitem', 'sum', 'cumsum', 'dot', 'max', 'transpose', 'equal']
+OPS = ['ctor', 'ctor_raw', 'ctor_dtype', 'ctor_like', 'ctor_like_scaled', 'best_sizes', 'set', 'call', 'setitem', 'resize', 'like', 'add', 'sub', 'mul', 'const', 'div', 'floordiv', 'mod', 'neg', 'abs', 'lshift', 'rshift', 'invert', 'and', 'getitem', 'sum', 'cumsum', 'dot', 'max', 'transpose', 'equal', 'conj', 'resize_rejected']
 
+def A_fmt(z): return (bool(z.signed), int(z.n_word), int(z.n_frac))
 def rand_fmt(rng):
     nw = rng.choice([1, 2, 3, 4, 6, 8, 12, 16, 24, 32, rng.randint(1, 40)]); return (rng.random() < 0.6, nw, rng.choice([0, 1, nw // 2, nw - 1, nw, -2, nw + 3, rng.randint(-8, nw + 8)]))
 def rand_vals(rng, n):
@@ -99,6 +104,32 @@ def run_program(rng, res, pid):
                 elif op == 'transpose': new = np.transpose(x) if np.asarray(x.val).ndim > 0 else None
                 elif op == 'equal':
                     if np.asarray(x.val).shape == np.asarray(y.val).shape: x.equal(y)
+                elif op == 'conj':
+                    # the conjugate of a REAL object (also of 54 bits and more, codes at the bounds) is that object's value again: real, same codes
+                    nww = rng.choice([8, 16, 54, 60, 63, 64, 72]); sw = rng.random() < 0.6; lo_, hi_ = S.fmt_bounds(sw, nww)
+                    w = fx.Fxp(rng.choice([hi_, lo_, hi_ - 1, rng.randint(lo_, hi_)]), sw, nww, rng.choice([0, nww - 1, nww // 2]), raw=True)
+                    if nww <= 16 and sw and rng.random() < 0.5:
+                        # a complex object whose imaginary code is the lowest one (reached by saturation) or a random one: the conjugate is well-formed
+                        # too (the negated lowest code does not exist: it is clamped or wrapped like any other result), and exact otherwise
+                        nfw = rng.choice([0, nww // 2]); im = rng.choice([lo_, lo_, lo_ + 1, rng.randint(lo_, hi_)])
+                        w = fx.Fxp(complex(rng.randint(lo_, hi_), im) * 2.0 ** -nfw, sw, nww, nfw, overflow=rng.choice(OMODES))
+                        new = rng.choice([lambda: np.conj(w), lambda: w.conj()])(); nontriv = True
+                        wc = np.asarray(w.val).reshape(-1).tolist()[0]; nc = np.asarray(new.val).reshape(-1).tolist()[0]
+                        if wf(new, np) or (im != lo_ and (nc.real, nc.imag) != (wc.real, -wc.imag)):
+                            res.fail({'program': pid, 'log': log, 'object': -1, 'fmt': A_fmt(w), 'code': [wc.real, wc.imag]}, 'C02: the conjugate of a complex object is not well-formed / not the conjugate', expected=(wc.real, -wc.imag), got=(wf(new, np), nc.real, nc.imag)); return
+                        continue
+                    new = rng.choice([lambda: np.conj(w), lambda: np.conjugate(w), lambda: w.conj()])(); nontriv = True
+                    if np.iscomplexobj(new.val) or lib.codes_of(new) != lib.codes_of(w) or A_fmt(new) != A_fmt(w):
+                        res.fail({'program': pid, 'log': log, 'object': -1, 'fmt': A_fmt(w), 'code': lib.codes_of(w)}, 'C02: the conjugate of a real object is not that value again in the same format (real codes inside the range)', expected=(A_fmt(w), lib.codes_of(w)), got=(A_fmt(new), repr(new.val)[:80])); return
+                    new = None       # (not added to the pool: its word may be wider than the pool's formats, whose limits are compared as doubles)
+                elif op == 'resize_rejected':
+                    # a resize that is rejected (dtype= together with another size parameter) leaves the object as it was
+                    before = (A_fmt(x), lib.codes_of(x) if not np.iscomplexobj(x.val) else None, x.dtype)
+                    try: x.resize(signed=not x.signed, dtype='fxp-%s%d/%d' % ('u' if x.signed else 's', x.n_word, x.n_frac)); rejected = False
+                    except ValueError: rejected = True
+                    after = (A_fmt(x), lib.codes_of(x) if not np.iscomplexobj(x.val) else None, x.dtype)
+                    if rejected and after != before:
+                        res.fail({'program': pid, 'log': log, 'object': pool.index(x), 'fmt': before[0]}, 'C02: a rejected resize (ValueError) left the object half-updated', expected=before, got=after); return
             except (ValueError, TypeError, OverflowError, ZeroDivisionError) as e:
                 # operations outside their documented domain (e.g. signed result into unsigned out) are not part of this property
                 log[-1] = op + ':raised-' + type(e).__name__
